@@ -17,14 +17,15 @@ open StarsimModel.Intervention
 /-! ### The constants of the source, as the model sees them -/
 
 /-- the `adj_factor` constants of the checked-out source -/
-def srcAdj : AdjConsts := ⟨Gen.adjThreshold, Gen.adjFineSub, Gen.adjCoarse⟩
+def srcAdj : AdjConsts := ⟨Gen.adjThreshold, Gen.adjFineSub, Gen.adjCoarse, Gen.vecPerTimepoint⟩
 
 def gateOf (onTi : Bool) : Gate := if onTi then .onTi else .onTimeObj
 
 /-- Obligations on the regenerated constants: the fine-step branch is `int(1/dt) - 1 if dt < 1`. -/
 theorem C20_adj_fine_form : Gen.adjThreshold = 1 ∧ Gen.adjFineSub = 1 := by decide
 
-/-- The source is one of the two known variants: today's (`else 1`, = `asis`) or the repaired one (`else 0`, = `spec`). -/
+/-- The source is one of the two known variants: today's (`else 1`, `np.arange` year vector = `asis`) or the repaired one
+    (`else 0`, one year-vector entry per time point = `spec`). -/
 theorem C20_variant_matched : srcAdj = AdjConsts.asis ∨ srcAdj = AdjConsts.spec := by decide
 
 /-- The capacity slice of `treat_num.get_candidates` is `queue[:max_capacity]` exactly. -/
@@ -283,6 +284,58 @@ theorem C20_window_asis_counterexample :
 /-- …and the repaired constants give 5..10 on the same input. -/
 theorem C20_window_spec_witness :
     routineInit .spec witnessIn = .ok ⟨[5, 6, 7, 8, 9, 10], List.replicate 6 (1/2), true, 1⟩ := by decide +kernel
+
+theorem routineProb_spec_length (i : RoutineIn) (sy ey : Rat) (ntp : Nat) (pr : List Rat)
+    (h : routineProb .spec i sy ey ntp = .ok pr) : pr.length = ntp := by
+  unfold routineProb at h
+  simp only [AdjConsts.spec, ↓reduceIte] at h
+  generalize ((if ey < sy then -((sy - ey).floor) else (ey - sy).floor) + 1 : Int) = nY at h
+  by_cases h1 : nY < 0
+  · simp [h1] at h
+  · simp only [h1, ↓reduceIte] at h
+    by_cases h2 : nY.toNat = i.prob.length
+    · simp only [h2, ne_eq, not_true_eq_false, ↓reduceIte, Except.ok.injEq] at h
+      rw [← h]; simp
+    · simp only [ne_eq, h2, not_false_eq_true, ↓reduceIte] at h
+      split at h
+      · simp only [Except.ok.injEq] at h; rw [← h]; simp
+      · cases h
+
+/-- **Spec: every time point has a probability.** With the repaired constants the stored probability vector has exactly
+    one entry per time point, so a delivery step never fails for lack of one. -/
+theorem C20_spec_prob_total (i : RoutineIn) (s : Sched) (h : routineInit .spec i = .ok s) :
+    s.prob.length = s.timepoints.length := by
+  unfold routineInit at h
+  split at h
+  · cases h
+  · cases hw : routineWindow i with
+    | none => simp [hw] at h
+    | some w =>
+      obtain ⟨sy, ey⟩ := w
+      simp only [hw] at h
+      cases hp : routinePoints .spec i sy ey with
+      | none => simp [hp] at h
+      | some q =>
+        obtain ⟨sp, ep⟩ := q
+        simp only [hp] at h
+        by_cases hn : ep - (sp : Int) + 1 < 0
+        · simp [hn] at h
+        · simp only [hn, ↓reduceIte] at h
+          cases hr : routineProb .spec i sy ey (intRange (sp : Int) (ep - (sp : Int) + 1).toNat).length with
+          | error e => simp [hr] at h
+          | ok pr =>
+            simp only [hr, Except.ok.injEq] at h
+            rw [← h]
+            simp only
+            exact routineProb_spec_length i sy ey _ pr hr
+
+/-- **As is: a time point without a probability.** Years 2005–2008 with four probabilities at `dt = 1`: five time
+    points, four probabilities — the step past `end_year` raises IndexError (the other face of the known finding). -/
+theorem C20_asis_missing_probability :
+    ∃ s, routineInit .asis ⟨gridYears 2000 1 16, 2000, 2015, some [2005, 2006, 2007, 2008], none, none,
+        [1/10, 1/5, 2/5, 4/5], true, 1⟩ = .ok s ∧ s.timepoints = [5, 6, 7, 8, 9] ∧ s.prob.length = 4 ∧
+      stepProb id s 4 = .error .index := by
+  refine ⟨⟨[5, 6, 7, 8, 9], [1/10, 1/5, 2/5, 4/5], true, 1⟩, by decide +kernel, rfl, rfl, by decide +kernel⟩
 
 /-! ### Capacity -/
 
